@@ -340,6 +340,27 @@ def layer2_task(t, res):
         with owned_rng():
             st = explore.explore_stateless(lambda: MazeDataset.generate(cfg), on_exec, dev=t["dev"], max_exec=t.get("max_exec"))
         res.count("l2_executions", st["executions"])
+    # two serial generations in one process (real PRNG): the first with endpoint options / other generator arguments, the second plain -
+    # every item of the second must honour ITS configuration (default options: distinct endpoints anywhere)
+    for seed in t["seeds"][:2]:
+        for first_opts, first_kw in ((dict(allowed_start=[(0, 0)], allowed_end=[(0, 0), (0, 1)]), {}), (dict(deadend_start=True, deadend_end=True), {}),
+                                     ({}, dict(accessible_cells=3) if gen in ("gen_dfs", "gen_prim", "gen_dfs_percolation") else {})):
+            res.ev()
+            rd = dict(kind="l2seq", gen=gen, kw=kw, grid=t["grid_real"], seed=seed, first_opts=first_opts, first_kw=first_kw)
+            try:
+                MazeDataset.generate(make_cfg(gen, dict(kw, **first_kw), t["grid_real"], 3, first_opts, seed=seed + 100))
+            except ValueError:
+                pass  # the first generation is only history
+            try:
+                ds = MazeDataset.generate(make_cfg(gen, kw, t["grid_real"], 6, {}, seed=seed))
+            except ValueError:
+                res.count("documented_errors")
+                continue
+            if len(ds) != 6:
+                res.fail(f"C03|generate|{gen}|{kwkey(kw)}|after_other_generation|count", f"second generation has {len(ds)} items, configured 6", rd)
+            for i, m in enumerate(ds.mazes):
+                judge_item(m, t["grid_real"], {}, res, f"C03|generate|{gen}|{kwkey(kw)}|after_generation_with_{opt_key(first_opts)}", dict(rd, index=i))
+            res.nontrivial(("l2seq", gen, kwkey(kw), seed, opt_key(first_opts), repr(first_kw)))
     # real PRNG: several seeds, every item valid
     for seed in t["seeds"]:
         # counts across the 127/128 and 255/256 boundaries once per generator (first seed), small counts for every seed
@@ -457,6 +478,9 @@ def virtual_body(cfg, K, vmp, history):
         vmp.identity = ()
         if history == "after_serial_other":
             MazeDataset.generate(make_cfg("gen_dfs", {}, 5, 1, {}, seed=3))
+        elif history == "after_serial_opts":
+            # a serial generation of the same shape WITH endpoint options right before: nothing of them may stick
+            MazeDataset.generate(make_cfg(cfg.maze_ctor.__name__, {}, cfg.grid_n, 2, dict(allowed_start=[(0, 0)], allowed_end=[(0, 0), (0, 1)], deadend_start=True), seed=9))
         elif history == "after_parallel_neighbour":
             # the same generator and grid with default arguments and default endpoint options, through a pool of the same size:
             # whatever a worker (or the parent) keeps from it must not leak into the generation that follows
@@ -642,6 +666,8 @@ def run(ctx):
             for K, n_mazes in ([(1, 3), (2, 4), (3, 4)] if quick else [(1, 3), (2, 4), (3, 4), (2, 5), (4, 5)]):
                 for e in ((0,) if quick and hist != "fresh" else (0, 1, 2)):
                     T3.append(dict(gen=gen, kw=kw, grid=3, n_mazes=n_mazes, K=K, history=hist, py_seed_base=e, tier=ctx.tier))
+    for gen in ("gen_dfs", "gen_wilson"):
+        T3.append(dict(gen=gen, kw={}, grid=3, n_mazes=3, K=2, history="after_serial_opts", py_seed_base=0, tier=ctx.tier))
     # endpoint options and generator arguments through the pool, fresh and after a default-argument generation of the same shape
     for gen, kw, opts in [("gen_dfs", {}, dict(deadend_start=True, endpoints_not_equal=True)), ("gen_prim", {}, dict(allowed_start=[(0, 0)], allowed_end=[(2, 2)])),
                           ("gen_dfs", dict(do_forks=False), dict(endpoints_not_equal=True)),
@@ -723,6 +749,9 @@ def replay(d, res):
                 res.fail(f"{keyp}|raised|{type(ex.exc).__name__}", f"raised {ex.exc!r}", d)
             return
         judge_item(SolvedMaze.from_lattice_maze(lattice_maze=m, solution=ex.out), n, opts, res, keyp, d)
+    elif k == "l2seq":
+        t = dict(gen=d["gen"], kw=dict(d["kw"]), grid=d["grid"], counts=[], dev=1, seeds=[d["seed"], d["seed"]], grid_real=d["grid"], tier="quick", max_exec=20000)
+        layer2_task(t, res)
     elif k in ("l2", "l2real"):
         t = dict(gen=d["gen"], kw=dict(d["kw"]), grid=d["grid"], counts=[d["n_mazes"]] if k == "l2" else [], dev=1, seeds=[d["seed"]] if k == "l2real" else [],
                  grid_real=d["grid"], tier="quick", max_exec=20000)
